@@ -24,9 +24,11 @@ package main
 // every sub-sequence of a case is a case.
 
 import (
+	"bytes"
 	"encoding/binary"
 	"errors"
 	"fmt"
+	"io"
 	"os"
 	"sort"
 	"strconv"
@@ -558,6 +560,9 @@ type crashRun struct {
 	sideA       bool   // some replica recovered to the acknowledged state only
 	sideB       bool   // some replica recovered with the interrupted operation visible
 	importEmpty bool   // tan ImportSnapshot interrupted between the removal and the new record
+	known       string // the violation is exactly the signature of this known finding
+	dropped     int    // unsynced bytes a log file lost in the power cut (runCrashTorn)
+	tornFiles   int
 	leaked      int
 	timing      time.Duration
 }
@@ -587,10 +592,18 @@ func newCrashMem() *gvfs.MemFS {
 // runCrash runs the workload with the power cut at FS operation cut (cut < 0:
 // no cut at all, clean close and reopen).
 func runCrash(kind string, mlfs int64, ops []op, cut int, record bool) (res crashRun) {
+	return runCrashTorn(kind, mlfs, ops, cut, record, -1)
+}
+
+// runCrashTorn: as runCrash; with torn >= 0 the log files (*.log) that lost
+// unsynced bytes in the power cut get the first torn of those bytes back before
+// the store is reopened (a torn tail: the disk had written part of the data when
+// the power went off); res.dropped reports how many bytes were lost at most.
+func runCrashTorn(kind string, mlfs int64, ops []op, cut int, record bool, torn int) (res crashRun) {
 	done := make(chan crashRun, 1)
 	go func() {
 		var r crashRun
-		if p := vh.Catch(func() { r = runCrash1(kind, mlfs, ops, cut, record) }); p != "" {
+		if p := vh.Catch(func() { r = runCrash1(kind, mlfs, ops, cut, record, torn) }); p != "" {
 			r.viol = "harness panic: " + p
 		}
 		done <- r
@@ -603,7 +616,7 @@ func runCrash(kind string, mlfs int64, ops []op, cut int, record bool) (res cras
 	}
 }
 
-func runCrash1(kind string, mlfs int64, ops []op, cut int, record bool) (res crashRun) {
+func runCrash1(kind string, mlfs int64, ops []op, cut int, record bool, torn int) (res crashRun) {
 	t0 := time.Now()
 	defer func() { res.timing = time.Since(t0) }()
 	mem := newCrashMem()
@@ -611,6 +624,7 @@ func runCrash1(kind string, mlfs int64, ops []op, cut int, record bool) (res cra
 	s := &cstore{kind: kind, mlfs: mlfs, fs: fs}
 	acked := newCrashRef()
 	hist := newHsHist()
+	ghosts := removalGhosts{}
 	var inflightOp *op
 
 	what := s.open()
@@ -646,8 +660,27 @@ func runCrash1(kind string, mlfs int64, ops []op, cut int, record bool) (res cra
 				res.viol = fmt.Sprintf("op failed without fault: %s -> %s %s", o.String(), r, detail)
 				return res
 			}
+			ghosts.account(acked, o)
 			hist.apply(acked, o)
 			acked.apply(o)
+		}
+	}
+	if res.inflight == "" && isTanKind(kind) && hasRemoval(ops) {
+		// tan deletes obsolete log / index files in a background worker after the
+		// operation has returned (compaction.go deleteObsoleteFiles, version_set.go):
+		// the store idles until the FS is quiet so that these operations are crash
+		// points too
+		last := fs.counted()
+		for i := 0; i < 40 && !fs.isOff(); i++ {
+			time.Sleep(4 * time.Millisecond)
+			c := fs.counted()
+			if c == last && i >= 2 {
+				break
+			}
+			last = c
+		}
+		if fs.isOff() {
+			res.inflight = "background"
 		}
 	}
 	if res.inflight == "" && cut >= 0 {
@@ -672,8 +705,29 @@ func runCrash1(kind string, mlfs int64, ops []op, cut int, record bool) (res cra
 	cw := s.close()
 	res.leaked = fs.kill()
 	if cut >= 0 {
+		var before map[string][]byte
+		if torn >= 0 {
+			before = readLogFiles(mem, crashDir)
+		}
 		mem.ResetToSyncedState()
 		mem.SetIgnoreSyncs(false)
+		for name, full := range before {
+			cur, ok := readWholeFile(mem, name)
+			if !ok || len(full) <= len(cur) || !bytes.HasPrefix(full, cur) {
+				continue
+			}
+			if d := len(full) - len(cur); d > res.dropped {
+				res.dropped = d
+			}
+			if torn > 0 {
+				p := torn
+				if p > len(full)-len(cur) {
+					p = len(full) - len(cur)
+				}
+				writeWholeFile(mem, name, full[:len(cur)+p])
+				res.tornFiles++
+			}
+		}
 	} else if cw != "" {
 		res.viol = "close failed without fault: " + cw
 		return res
@@ -776,6 +830,9 @@ func runCrash1(kind string, mlfs int64, ops []op, cut int, record bool) (res cra
 				}
 			}
 			res.viol = "recovered state is neither the acknowledged one nor the one with the interrupted operation: " + describe(n)
+			if isTanKind(kind) && ghosts.explains(n, s.observe(n, &candA, nil), expected(n, &candA)) {
+				res.known = "tan-removal-not-durable"
+			}
 			return res
 		}
 	}
@@ -926,6 +983,7 @@ func runCrashLines(lines []string, tier string, obs *vh.LineWriter, st *vh.Stats
 		st.Count("crash.kind." + c.kind)
 		st.Count("crash.k." + map[bool]string{true: c.k, false: "point"}[c.k == "all" || c.k == "none"])
 		viol := ""
+		known := ""
 		nontrivial := false
 		account := func(r *crashRun, cut int) {
 			busy += r.timing
@@ -972,6 +1030,7 @@ func runCrashLines(lines []string, tier string, obs *vh.LineWriter, st *vh.Stats
 					infl = "-"
 				}
 				viol = fmt.Sprintf("crash-atomicity: kind=%s k=%s inflight=%s %s", c.kind, ks, infl, r.viol)
+				known = r.known
 			}
 		}
 		switch c.k {
@@ -990,16 +1049,13 @@ func runCrashLines(lines []string, tier string, obs *vh.LineWriter, st *vh.Stats
 		// KNOWN FINDING (findings/known.txt, tan-removal-not-durable): tan's
 		// RemoveNodeData only clears the in-memory index; after a crash the active
 		// log is replayed and the removed replica's records are back. A case that
-		// removed a replica of a tan store is reported under that name and not
-		// compared further.
-		if viol != "" && isTanKind(c.kind) {
-			for _, o := range c.ops {
-				if o.Kind == "REMNODE" {
-					st.Violation(c.id, "tan-removal-not-durable: "+viol)
-					viol = ""
-					break
-				}
-			}
+		// removed a replica of a tan store is reported under that name ONLY when the
+		// wrong answer is exactly that signature (removalGhosts.explains): the removed
+		// replica, nothing saved for it since, and what is read back is its hard state
+		// / snapshot record from before the removal. Anything else is judged normally.
+		if viol != "" && known != "" {
+			st.Violation(c.id, known+": "+viol)
+			viol = ""
 		}
 		if viol == "" {
 			obs.Printf("%s crash ok\n", c.id)
@@ -1366,4 +1422,124 @@ func genCrashCasesBase(r *vh.Rand, tier string, n int) []string {
 		}
 	}
 	return out
+}
+
+// removalGhosts: per replica, what it held when RemoveNodeData was acknowledged
+// (only while nothing was saved for it afterwards).
+type removalGhosts map[int]*removalGhost
+
+type removalGhost struct {
+	sts map[string]bool // hard states written before the removal
+	gss map[string]bool // snapshot records written before the removal
+}
+
+// account is called with the reference state BEFORE o is applied.
+func (g removalGhosts) account(before *ref, o op) {
+	switch o.Kind {
+	case "REMNODE":
+		nd := &before.nodes[o.N]
+		gh := g[o.N]
+		if gh == nil {
+			gh = &removalGhost{sts: map[string]bool{}, gss: map[string]bool{}}
+			g[o.N] = gh
+		}
+		if nd.st != nil {
+			gh.sts[stString(nd.st)] = true
+		}
+		gh.gss[before.query(op{Kind: "GS", N: o.N})] = true
+	case "SAVE":
+		for _, u := range o.Ups {
+			if g[u.N] != nil && before.nodes[u.N].st == nil {
+				delete(g, u.N) // the replica is re-created: not the finding's signature any more
+			}
+		}
+	case "SNAP", "IMPORT", "REMTO":
+		if g[o.N] != nil && before.nodes[o.N].st == nil {
+			delete(g, o.N)
+		}
+	}
+}
+
+// explains: replica n was removed, the reference says it is empty, and the store
+// answers with the hard state (and possibly the snapshot record) it had before.
+func (g removalGhosts) explains(n int, got nodeObs, want nodeObs) bool {
+	gh := g[n]
+	if gh == nil || want.rrs != "nostate" {
+		return false
+	}
+	st, _ := splitRRS(got.rrs)
+	if !gh.sts[st] {
+		return false
+	}
+	return got.gs == want.gs || gh.gss[got.gs]
+}
+
+// ---- direct access to the files of the in-memory disk (torn tails) ----
+
+func readWholeFile(mem *gvfs.MemFS, name string) ([]byte, bool) {
+	f, err := mem.Open(name)
+	if err != nil {
+		return nil, false
+	}
+	defer f.Close()
+	st, err := f.Stat()
+	if err != nil || st.IsDir() {
+		return nil, false
+	}
+	b := make([]byte, st.Size())
+	n, _ := io.ReadFull(f, b)
+	return b[:n], true
+}
+
+func writeWholeFile(mem *gvfs.MemFS, name string, data []byte) {
+	f, err := mem.Create(name)
+	if err != nil {
+		panic(err)
+	}
+	if _, err := f.Write(data); err != nil {
+		panic(err)
+	}
+	_ = f.Sync()
+	_ = f.Close()
+	if d, err := mem.OpenDir(mem.PathDir(name)); err == nil {
+		_ = d.Sync()
+		_ = d.Close()
+	}
+}
+
+// readLogFiles returns the content of every *.log file below dir.
+func readLogFiles(mem *gvfs.MemFS, dir string) map[string][]byte {
+	out := map[string][]byte{}
+	var walk func(d string)
+	walk = func(d string) {
+		names, err := mem.List(d)
+		if err != nil {
+			return
+		}
+		for _, n := range names {
+			p := mem.PathJoin(d, n)
+			st, err := mem.Stat(p)
+			if err != nil {
+				continue
+			}
+			if st.IsDir() {
+				walk(p)
+			} else if strings.HasSuffix(n, ".log") {
+				if b, ok := readWholeFile(mem, p); ok {
+					out[p] = b
+				}
+			}
+		}
+	}
+	walk(dir)
+	return out
+}
+
+func hasRemoval(ops []op) bool {
+	for _, o := range ops {
+		if o.Kind == "REMTO" || o.Kind == "IMPORT" || o.Kind == "REMNODE" {
+			return true
+		}
+	}
+	return false
 }
